@@ -64,8 +64,7 @@ def model_runs(ctx, rnd):
         faces = sorted(rnd.sample(range(1, 7), 3))
         mrs = [1, rnd.choice([2, INF])]
         lims = [INF, rnd.choice([1, 0])]
-        dmax, span = rnd.choice([(2, 1), (1, 2)])
-        ctx.tlc("EdgeQuery", model_cfg(faces, 0, 2, 3, 2, dmax, 0, mrs, lims, [0, 1], [False], 2, 2, span, []),
+        ctx.tlc("EdgeQuery", model_cfg(faces, 0, 2, 3, 2, 2, 0, mrs, lims, [0, 1], [False], 2, 2, 1, []),
                 workers=8, timeout=300)
     else:
         ctx.tlc("EdgeQuery", model_cfg([1, 2, 3, 4], 0, 2, 4, 2, 2, 1, [1, 2, 3, INF], [INF, 1, 0], [0, 1], [False, True],
@@ -79,9 +78,9 @@ def model_runs(ctx, rnd):
         ([1, 3], 2, 2, 4, 3, 3, 1, [1, 2, 3, INF], [INF, 2, 0], [0, 1, INF], [False], 2, 3, 3),
         ([2], 2, 3, 4, 3, 2, 0, [1, 2, INF], [INF, 1, 0], [0, 1], [False], 3, 3, 2),
     ]
-    for i, s in enumerate(sims[:2] if q else sims):
+    for i, s in enumerate(sims[:1] if q else sims):
         ctx.tlc("EdgeQuery", model_cfg(*s, []), workers=1 if q else 4,
-                simulate="num=%d" % (150 if q else 40000), depth=60, seed=ctx.seed * 10 + i, timeout=1800)
+                simulate="num=%d" % ((150, 60)[i] if q else 40000), depth=60, seed=ctx.seed * 10 + i, timeout=1800)
     # (c) the pinned tree's behaviour, transcribed: TLC must find the counterexamples
     for tag, s in [("break", sims[0]), ("dup", sims[0]), ("capbound", sims[0])]:
         r = ctx.tlc("EdgeQuery", model_cfg(*s, [tag]), workers=1, simulate="num=200000", depth=60,
@@ -107,7 +106,7 @@ def w1_scene(rnd, n, nfaces, npts, nlines, ntris, big):
     tris = [take(3) for _ in range(ntris)]
     anyp = prim[:]
     rnd.shuffle(anyp)
-    tg_pts = anyp[:3] + cloud[:1] + ([lines[0][0]] if lines and lines[0] else [])
+    tg_pts = anyp[:2] + cloud[:1] + ([lines[0][0]] if lines and lines[0] else [])
     # a target strictly inside each triangle, and one whose antipode is (furthest-edge queries)
     det = lambda a, b, c: (a[0] * (b[1] * c[2] - b[2] * c[1]) - a[1] * (b[0] * c[2] - b[2] * c[0])
                            + a[2] * (b[0] * c[1] - b[1] * c[0]))
@@ -225,7 +224,7 @@ def run(ctx):
                     workers=8 if q else 12, timeout=900)
         cases += r.tagged.get("CASE", [])
     # W2
-    for (g, nf, rows, bundle) in ([(3, 3, 1, True), (4, 1, 0, False)] if q else
+    for (g, nf, rows, bundle) in ([rnd.choice([(3, 3, 1, True), (4, 1, 0, False), (3, 5, 2, True)])] if q else
                                   [(3, 1, 2, True), (3, 2, 1, False), (3, 3, 1, True), (4, 2, 1, False), (4, 4, 2, True),
                                    (3, 6, 2, False), (5, 1, 1, False), (4, 6, 0, True)]):
         consts = w2_scene(rnd, g, nf, rows, bundle, nclouds=3 if q else 12)
